@@ -72,6 +72,12 @@ def corr_lines(ctx, rng, quick):
                 for cut in range(0, len(sd), max(1, len(sd) // 9)):
                     out.append(f"sig.dec der {hx(sd[:cut])} {n}")
                 out.append(f"sig.dec der {hx(sd + b'x')} {n}")
+                import dertree
+                body = _der_int(rr) + _der_int(ss)
+                for junk in (b"\x00", b"\x05\x00", b"\x02\x01\x01", g.rbytes(rng, rng.randrange(1, 6))):
+                    out.append(f"sig.dec der {hx(b'\x30' + dertree.enc_len(len(body) + len(junk)) + body + junk)} {n}")
+                for _what, blob in dertree.mutations(sd, rng, limit=None if not quick else 8):
+                    out.append(f"sig.dec der {hx(blob)} {n}")
                 out.append(f"sig.dec string {hx(st[:-1])} {n}")
                 out.append(f"sig.dec string {hx(st + b'x')} {n}")
                 m = bytearray(sd)
